@@ -250,6 +250,12 @@ class DepEngine(object):
                 e = st.exc
                 if isinstance(e, ast.Call):
                     exc = unparse(e.func)
+                    # raise _too_many(...): a module-level builder whose every return is <ExceptionClass>(...)
+                    if isinstance(e.func, ast.Name) and env.get(e.func.id) is None and e.func.id in self.module.functions:
+                        rets = [r for r in ast.walk(self.module.functions[e.func.id].node) if isinstance(r, ast.Return)]
+                        classes = set(unparse(r.value.func) if isinstance(r.value, ast.Call) else '?' for r in rets)
+                        if len(classes) == 1 and '?' not in classes:
+                            exc = classes.pop()
                     val = self.ev(e, env, ctx)
                 else:
                     exc = unparse(e)
